@@ -217,7 +217,7 @@ def run_replay(ctx, spec, out, path):
 
 
 def c01_opts(rng):
-    return ({}, {"depth": [0, 1, 2, 3, 4], "both_modes": True})
+    return ({}, {"depth": [0, 1, 2, 3, 4], "both_modes": True, "index_shape_p": 0.25})
 
 
 def c05_opts(rng):
@@ -225,11 +225,11 @@ def c05_opts(rng):
 
 
 def c06_opts(rng):
-    return ({"nhosts": [0, 1, 2, 3, 5, 8, 12]}, {"depth": [0, 1], "nfilters": [0, 0, 1], "sort": 0.8, "limit": 0.7, "offset": 0.5, "formats": ["json", "wrapped_json"], "colheaders": 0.1})
+    return ({"nhosts": [0, 1, 2, 3, 5, 8, 12]}, {"depth": [0, 1], "nfilters": [0, 0, 1], "sort": 0.8, "limit": 0.7, "offset": 0.5, "formats": ["json", "wrapped_json"], "colheaders": 0.1, "near_default_p": 0.7, "tables": ["hosts", "services", "services", "hostgroups", "comments", "servicesbygroup"]})
 
 
 def c07_opts(rng):
-    return ({}, {"depth": [0, 1, 2, 3], "both_modes": True, "index_p": 0.5, "optimize_p": 0.5})
+    return ({}, {"depth": [0, 1, 2, 3], "both_modes": True, "index_p": 0.5, "optimize_p": 0.5, "index_shape_p": 0.25})
 
 
 def c08_opts(rng):
